@@ -910,6 +910,71 @@ func (mc *modelCheck) record(c *evid.Collector, cs *modelCase, v *verdict) {
 	}
 }
 
+// keyedLiteralCase: the pattern is a composite literal written entirely
+// with field names; the file holds, in declarations without any site,
+// literals of the same and of other types with the same field names in
+// another order (not instances: the elements stand in another order).
+func keyedLiteralCase(rt *rapid.T) *modelCase {
+	order := func(label string, a, b string) string {
+		if rapid.Bool().Draw(rt, label) {
+			return a + ", " + b
+		}
+		return b + ", " + a
+	}
+	var b strings.Builder
+	b.WriteString("package keyed\n\ntype Pq struct{ X, Y int }\n\ntype Size struct{ X, Y int }\n\n")
+	b.WriteString("var size = Size{" + order("sizeOrder", "X: w()", "Y: h()") + "}\n\n")
+	b.WriteString("func untouched() any {\n\treturn []any{Pq{" + order("o1", "X: a", "Y: b") + "}, Size{Y: 2, X: 1}, struct{ Y, X int }{Y: 1, X: 2}}\n}\n\n")
+	b.WriteString("func sites() {\n")
+	n := rapid.IntRange(1, 3).Draw(rt, "keyedSites")
+	for i := 0; i < n; i++ {
+		fmt.Fprintf(&b, "\tmkq(Pq{X: %d, Y: f%d()})\n", i, i)
+	}
+	if rapid.Bool().Draw(rt, "reorderedCall") {
+		b.WriteString("\tmkq(Pq{Y: 9, X: 8})\n")
+	}
+	b.WriteString("}\n\nvar last = map[string]Size{\"k\": {" + order("o2", "X: 3", "Y: 4") + "}}\n")
+	return &modelCase{
+		Spec:   ref.Spec{Holes: map[string]ref.HoleKind{"hv1": ref.ExprHole, "hv2": ref.ExprHole}, Minus: "mkq(Pq{X: hv1, Y: hv2})", Plus: "mkq2(Pq{X: hv1, Y: hv2})"},
+		Patch:  "@@\nvar hv1, hv2 expression\n@@\n-mkq(Pq{X: hv1, Y: hv2})\n+mkq2(Pq{X: hv1, Y: hv2})\n",
+		Host:   b.String(),
+		Origin: "synthetic:keyed-literal",
+	}
+}
+
+// declImportCase: a function declaration pattern that also adds an import,
+// on a file whose import section is "import \"C\"" alone, several import
+// declarations, one group or none: the declarations between the rewritten
+// ones must stay where and what they are.
+func declImportCase(rt *rapid.T) *modelCase {
+	imports := rapid.SampledFrom([]string{
+		"",
+		"import \"C\"\n\n",
+		"import \"fmt\"\n\nimport \"os\"\n\n",
+		"import \"C\"\n\nimport \"fmt\"\n\nimport (\n\t\"os\"\n)\n\n",
+		"import (\n\t\"fmt\"\n\t\"os\"\n)\n\n",
+		"import \"fmt\"\n\n",
+	}).Draw(rt, "importSection")
+	var b strings.Builder
+	b.WriteString("package declimp\n\n" + imports)
+	n := rapid.IntRange(2, 5).Draw(rt, "decls")
+	for i := 0; i < n; i++ {
+		fmt.Fprintf(&b, "func keep%d() string {\n\treturn \"keep%d\"\n}\n\n", i, i)
+		if rapid.IntRange(0, 2).Draw(rt, fmt.Sprintf("site%d", i)) > 0 || i == 0 {
+			fmt.Fprintf(&b, "func tgt%d() int {\n\treturn 0\n}\n\n", i)
+		}
+	}
+	b.WriteString("var tail = 1\n")
+	return &modelCase{
+		Spec: ref.Spec{Holes: map[string]ref.HoleKind{"hv1": ref.IdentHole},
+			Minus: "func hv1() int {\n\treturn 0\n}", Plus: "func hv1(ctx context.Context) int {\n\treturn 0\n}",
+			ImportsPlus: []ref.Import{{Path: "context"}}},
+		Patch:  "@@\nvar hv1 identifier\n@@\n+import \"context\"\n\n-func hv1() int {\n-\treturn 0\n-}\n+func hv1(ctx context.Context) int {\n+\treturn 0\n+}\n",
+		Host:   b.String(),
+		Origin: "synthetic:declaration-with-added-import",
+	}
+}
+
 // nestedChoiceCase: a metavariable occurs in a list with elisions that is
 // nested in the pattern, and again after that list. Whether code is an
 // instance can then depend on which element of the nested list the
@@ -1017,6 +1082,16 @@ func (mc *modelCheck) run(t *testing.T) {
 		if mc.TypeOperand > 0 && rapid.IntRange(0, mc.TypeOperand-1).Draw(rt, "typeOperand") == 0 {
 			mc.judge(rt, c, typeOperandCase(rt))
 			return
+		}
+		if mc.Prop == "C05" {
+			switch rapid.IntRange(0, 19).Draw(rt, "c05Synthetic") {
+			case 0:
+				mc.judge(rt, c, keyedLiteralCase(rt))
+				return
+			case 1:
+				mc.judge(rt, c, declImportCase(rt))
+				return
+			}
 		}
 		if mc.Prop == "C02" && rapid.IntRange(0, 14).Draw(rt, "importBound") == 0 {
 			c02iRun(rt, c)
